@@ -4,7 +4,7 @@
 // instruction sequence of a class declaration is   DeclareClass  [ … Inherit ]  member*  DefineClass   — in particular the
 // declared superclass's methods are copied down (Inherit) BEFORE any member of the class is defined, which is what makes
 // "a later own definition overrides what was copied" (Vm::define_method, unit classes) the nearest-definition rule and
-// what the precondition "Inherit runs on an empty table" of Vm::inherit_impl (unit classes) rests on. Instance methods go
+// what the precondition of Vm::inherit_impl (unit classes) rests on: the table is still the one DeclareClass created. Instance methods go
 // to the class table (Method), constructors and static methods to the metaclass (StaticMethod).
 use vstd::prelude::*;
 verus! {
